@@ -74,3 +74,28 @@ Lemma flag_netip_pre_fix_refuted_l :
   class_of (flag_value_with write_leaf_pre_fix PPflag 0 0 ex_fs ex_tmpl [(S "addr", S "10.0.0.1")]) = COk /\
   class_of (flag_value PStd 0 0 ex_fs ex_tmpl [(S "addr", S "10.0.0.1")]) = COk.
 Proof. vm_compute. repeat split; reflexivity. Qed.
+
+(* a declared type of every scalar kind is a flag-supported leaf; before the
+   second fix a declared COMPLEX type given on the command line made the std
+   source panic (the helper's pointer was not dereferenced) *)
+Definition named_fs : fields :=
+  FCons (S "Gain") [] false (TBasic (KComplex 64) (S "rty.NC64"))
+ (FCons (S "Ratio") [] false (TBasic (KFloat 32) (S "rty.NF32"))
+ (FCons (S "On") [] false (TBasic KBool (S "rty.NBool")) FNil)).
+Definition named_tmpl : list val := [VList [VFloat 0; VFloat 0]; VFloat 0; VBool false].
+
+Example named_values :
+  map (fun p => flag_value p 0 0 named_fs named_tmpl
+                  [(S "gain", S "(1.5-2i)"); (S "ratio", S "0.25"); (S "on", S "false")]) [PStd; PPflag] =
+  let v := Ok [VPtr (VList [VFloat 1536; VFloat (-2048)]); VPtr (VFloat 256); VPtr (VBool false)] in [v; v].
+Proof. vm_compute. reflexivity. Qed.
+
+Example named_float32_overflow :
+  map (fun p => class_of (flag_value p 0 0 named_fs named_tmpl [(S "ratio", S "1e39")])) [PStd; PPflag] = [CErr; CErr].
+Proof. vm_compute. reflexivity. Qed.
+
+Lemma flag_named_complex_pre_fix_refuted_l :
+  class_of (flag_value_with write_leaf_pre_fix2 PStd 0 0 named_fs named_tmpl [(S "gain", S "2i")]) = CPanic /\
+  class_of (flag_value_with write_leaf_pre_fix2 PPflag 0 0 named_fs named_tmpl [(S "gain", S "2i")]) = COk /\
+  class_of (flag_value PStd 0 0 named_fs named_tmpl [(S "gain", S "2i")]) = COk.
+Proof. vm_compute. repeat split; reflexivity. Qed.
